@@ -245,12 +245,12 @@ exit:
 
 	// interpret line directives
 	// (//line directives must start at the beginning of the current line)
-	if next >= 0 /* implies valid comment */ && len(lit) >= 2 && (lit[1] == '*' || offs == s.lineOffset) && bytes.HasPrefix(lit[2:], prefix) {
+	if next >= 0 /* implies valid comment */ && !sharp && (lit[1] == '*' || offs == s.lineOffset) && bytes.HasPrefix(lit[2:], prefix) {
 		s.updateLineInfo(next, offs, lit)
 	}
 
 	if numCR > 0 {
-		lit = stripCR(lit, lit[1] == '*')
+		lit = stripCR(lit, !sharp && lit[1] == '*')
 	}
 
 	return string(lit)
